@@ -209,6 +209,17 @@ func (p *pathNode) addPathNodeFor(name string, pn *pathNode) {
 // returned by this function. Any operations on the removed tree must use this
 // value.
 func (p *pathNode) removeWithName(name string, fn func(ref *fidRef)) *pathNode {
+	// The references taken for the callbacks below are dropped only after
+	// childMu has been released: dropping the last reference of a child
+	// calls removeChild on the child's (possibly new) parent node, which may
+	// be p itself and would then lock childMu a second time.
+	var held []*fidRef
+	defer func() {
+		for _, ref := range held {
+			ref.DecRef()
+		}
+	}()
+
 	p.childMu.Lock()
 	defer p.childMu.Unlock()
 
@@ -226,7 +237,7 @@ func (p *pathNode) removeWithName(name string, fn func(ref *fidRef)) *pathNode {
 			// been destroyed, then we can skip the callback.
 			if ref.TryIncRef() {
 				fn(ref)
-				ref.DecRef()
+				held = append(held, ref)
 			}
 		}
 	}
